@@ -1,6 +1,375 @@
-//! C10 -- monitor (to be written)
-use crate::fw::ctx;
+//! C10 -- rewriting diagrams with boolean parameters is sound under every assignment.
+//!
+//! inst_a(g) is computed by the harness from the public interface: add pi to every spider
+//! whose parity is odd under the assignment a, multiply in every scalar factor whose
+//! expression (a conjunction of parities with constant) is true under a. For every
+//! accepted rule application and every simplifier: E(inst_a(after)) == E(inst_a(before))
+//! for ALL assignments a. For circuits with measurements: E(inst_a(to_graph(c))) == U_a(c)
+//! with the independent simulator projecting <a_i| (and re-preparing |0>).
+
+use super::c01::{apply_proc, budget_for, PROCS};
+use super::c04::{apply_unchecked, check_rule, Arity, RULES};
+use crate::fw::{ctx, guarded, par_cases, Caught};
+use crate::gen::circuit::*;
+use crate::gen::diagram::*;
+use crate::gen::prng::Rng;
+use crate::oracle::eval::EvalError;
+use crate::oracle::ring::{r_of_scalar, scalar_is_approx, Num};
+use crate::oracle::sim::{tensor_exact_assign, tensor_float_assign, Circ, G};
+use crate::snap::{eval_snap, graph_json, snap, Snap, Tens, FLOAT_TOL};
+use quizx::graph::{GraphLike, V};
+use quizx::params::{Expr, Parity};
+use serde_json::json;
+use std::collections::BTreeMap;
+
+pub type Assign = BTreeMap<u32, bool>;
+
+/// value of a parity (XOR of variables and its constant) under an assignment
+pub fn parity_value(p: &Parity, a: &Assign) -> bool {
+    let vars: Vec<u32> = p.iter().collect();
+    // the constant bit has no accessor: compare with the same variable list and constant 1
+    let constant = *p == Parity::new(vars.clone(), true);
+    let mut v = constant;
+    for x in vars {
+        v ^= a.get(&x).copied().unwrap_or(false);
+    }
+    v
+}
+
+pub fn expr_value(e: &Expr, a: &Assign) -> bool {
+    e.iter().all(|p| parity_value(p, a))
+}
+
+pub fn graph_vars(g: &impl GraphLike) -> Vec<u32> {
+    let mut vs: Vec<u32> = vec![];
+    for v in g.vertices() {
+        vs.extend(g.vars(v).iter());
+    }
+    for (e, _) in g.scalar_factors() {
+        for p in e.iter() {
+            vs.extend(p.iter());
+        }
+    }
+    vs.sort();
+    vs.dedup();
+    vs
+}
+
+/// Instantiate a graph under an assignment into a snapshot.
+pub fn inst(g: &impl GraphLike, a: &Assign) -> Result<Snap, String> {
+    let mut s = snap(g)?;
+    for v in s.diag.verts.iter_mut() {
+        let p = g.vars(v.0);
+        if parity_value(&p, a) {
+            // add pi
+            let (n, d) = (v.2, v.3);
+            let nn = n + d;
+            // normalise into (-1,1]
+            let mut m = nn.rem_euclid(2 * d);
+            if m > d {
+                m -= 2 * d;
+            }
+            v.2 = m;
+        }
+    }
+    for (e, f) in g.scalar_factors() {
+        if expr_value(e, a) {
+            s.scalar = s.scalar.mul(&r_of_scalar(f));
+            if scalar_is_approx(f) {
+                s.scalar_approx = true;
+            }
+        }
+    }
+    Ok(s)
+}
+
+pub fn all_assignments(vars: &[u32]) -> Vec<Assign> {
+    let n = vars.len().min(6);
+    (0..(1usize << n)).map(|m| vars.iter().take(n).enumerate().map(|(i, &v)| (v, (m >> i) & 1 == 1)).collect()).collect()
+}
+
+fn eval_all(g: &impl GraphLike, assigns: &[Assign]) -> Result<Vec<Tens>, EvalError> {
+    let mut out = vec![];
+    for a in assigns {
+        let s = inst(g, a).map_err(EvalError::IllFormed)?;
+        out.push(eval_snap(&s)?);
+    }
+    Ok(out)
+}
+
+fn compare_all(before: &[Tens], g: &impl GraphLike, assigns: &[Assign]) -> Result<Option<(usize, Tens)>, EvalError> {
+    for (i, a) in assigns.iter().enumerate() {
+        let s = inst(g, a).map_err(EvalError::IllFormed)?;
+        let t = eval_snap(&s)?;
+        if t.len() != before[i].len() || !t.same(&before[i], FLOAT_TOL) {
+            return Ok(Some((i, t)));
+        }
+    }
+    Ok(None)
+}
+
+fn assign_json(a: &Assign) -> serde_json::Value {
+    json!(a.iter().map(|(k, v)| format!("b{k}={}", *v as u8)).collect::<Vec<_>>())
+}
+
+fn rules_on<G: GraphLike>(family: &'static str, index: u64, backend: &str, g: &G, desc: &serde_json::Value) -> u64 {
+    let cx = ctx();
+    // assignments over the variables present plus (always) variable 0
+    let mut vars = graph_vars(g);
+    if !vars.contains(&0) {
+        vars.insert(0, 0);
+    }
+    let assigns = all_assignments(&vars);
+    let before = match eval_all(g, &assigns) {
+        Ok(b) => b,
+        Err(_) => {
+            cx.skipped();
+            return 0;
+        }
+    };
+    let mut args: Vec<V> = g.vertices().collect();
+    args.sort();
+    let mut accepted = 0;
+    for (rule, ar, _) in RULES {
+        for &a in &args {
+            let bs: &[V] = if ar == Arity::One { &args[..1] } else { &args[..] };
+            for &b in bs {
+                let b = if ar == Arity::One { a } else { b };
+                let ok = guarded(|| check_rule(rule, g, a, b)).unwrap_or(false);
+                if !ok {
+                    continue;
+                }
+                let involves_vars = !g.vars(a).is_empty() || !g.vars(b).is_empty();
+                accepted += 1;
+                cx.count(&format!("accepted:{rule}"), 1);
+                if involves_vars {
+                    cx.count(&format!("accepted-with-vars-on-args:{rule}"), 1);
+                }
+                let mut h = g.clone();
+                let detail = |what: &str, extra: serde_json::Value| {
+                    json!({"what": what, "rule": rule, "args": [a, b], "backend": backend, "diagram": desc, "graph": graph_json(g), "extra": extra})
+                };
+                if let Err(e) = guarded(|| apply_unchecked(rule, &mut h, a, b)) {
+                    if let Caught::Oracle(_) = e {
+                        continue;
+                    }
+                    cx.violation(&format!("{rule}|panic-after-accept|vars"), family, index, detail("panic", json!(e.text())));
+                    continue;
+                }
+                match compare_all(&before, &h, &assigns) {
+                    Ok(None) => {}
+                    Ok(Some((i, t))) => {
+                        let factors: Vec<String> = h.scalar_factors().map(|(e, s)| format!("{e:?} -> {s}")).collect();
+                        let vv: Vec<String> = h.vertices().filter(|&v| !h.vars(v).is_empty()).map(|v| format!("{v}:{:?}", h.vars(v))).collect();
+                        cx.violation(
+                            &format!("{rule}|map-changed-under-assignment|{}", if involves_vars { "vars-on-args" } else { "vars-elsewhere" }),
+                            family,
+                            index,
+                            detail(
+                                "instantiated map differs",
+                                json!({"assignment": assign_json(&assigns[i]), "before": before[i].brief(), "after": t.brief(), "result": graph_json(&h), "result_vars": vv, "result_factors": factors}),
+                            ),
+                        );
+                    }
+                    Err(EvalError::IllFormed(m)) => cx.violation(&format!("{rule}|ill-formed-result|vars"), family, index, detail("ill-formed", json!(m))),
+                    Err(EvalError::TooWide(_)) => cx.skipped(),
+                }
+            }
+        }
+    }
+    accepted
+}
+
+fn simps_on<G: GraphLike>(family: &'static str, index: u64, backend: &str, build: &dyn Fn() -> G, desc: &serde_json::Value) -> u64 {
+    let cx = ctx();
+    let g0 = build();
+    let mut vars = graph_vars(&g0);
+    if !vars.contains(&0) {
+        vars.insert(0, 0);
+    }
+    let assigns = all_assignments(&vars);
+    let before = match eval_all(&g0, &assigns) {
+        Ok(b) => b,
+        Err(_) => {
+            cx.skipped();
+            return 0;
+        }
+    };
+    let mut fired = 0;
+    for proc_ in PROCS {
+        let mut g = build();
+        let vs: Vec<V> = g.vertices().collect();
+        quizx::verif::take_ticks();
+        quizx::verif::set_budget(budget_for(g.num_vertices(), g.num_edges()));
+        let r = guarded(|| apply_proc(proc_, &mut g, &vs));
+        quizx::verif::set_budget(u64::MAX);
+        let ticks = quizx::verif::take_ticks();
+        let total: u64 = ticks.iter().map(|t| t.1).sum();
+        fired += total;
+        for (rule, n) in &ticks {
+            cx.count(&format!("ticks:{rule}"), *n);
+        }
+        let detail = |what: &str, extra: serde_json::Value| json!({"what": what, "procedure": proc_, "backend": backend, "diagram": desc, "extra": extra});
+        match r {
+            Err(Caught::Oracle(_)) => continue,
+            Err(e) => {
+                cx.violation(&format!("{proc_}|panic-or-budget|vars|{}", e.site()), family, index, detail("panic", json!(e.text())));
+                continue;
+            }
+            Ok(()) => {}
+        }
+        match compare_all(&before, &g, &assigns) {
+            Ok(None) => {}
+            Ok(Some((i, t))) => {
+                let factors: Vec<String> = g.scalar_factors().map(|(e, s)| format!("{e:?} -> {s}")).collect();
+                cx.violation(
+                    &format!("{proc_}|map-changed-under-assignment"),
+                    family,
+                    index,
+                    detail("instantiated map differs", json!({"assignment": assign_json(&assigns[i]), "before": before[i].brief(), "after": t.brief(), "result": graph_json(&g), "result_factors": factors, "ticks": format!("{ticks:?}")})),
+                );
+            }
+            Err(EvalError::IllFormed(m)) => cx.violation(&format!("{proc_}|ill-formed-result|vars"), family, index, detail("ill-formed", json!(m))),
+            Err(EvalError::TooWide(_)) => cx.skipped(),
+        }
+    }
+    fired
+}
+
+fn check_desc(family: &'static str, index: u64, r: &mut Rng, d: &DDesc) {
+    let cx = ctx();
+    let desc = d.to_json();
+    let scr = if r.chance(0.3) { Some(r.next_u64()) } else { None };
+    let (gv, _) = d.build::<quizx::vec_graph::Graph>(scr);
+    let mut n = rules_on(family, index, "vec", &gv, &desc);
+    let (gh, _) = d.build::<quizx::hash_graph::Graph>(scr);
+    n += rules_on(family, index, "hash", &gh, &desc);
+    n += simps_on(family, index, "vec", &|| d.build::<quizx::vec_graph::Graph>(scr).0, &desc);
+    n += simps_on(family, index, "hash", &|| d.build::<quizx::hash_graph::Graph>(scr).0, &desc);
+    cx.case(family, if n > 0 && d.has_vars() { Some(d.hash()) } else { None });
+    cx.sample_n(4, || json!({"family": family, "index": index, "diagram": desc, "rule_applications_and_rewrites": n}));
+}
+
+// ---------------------------------------------------------------------------------
+// measurement circuits
+// ---------------------------------------------------------------------------------
+
+fn check_meas_circuit(family: &'static str, index: u64, c: &Circ) {
+    let cx = ctx();
+    let qc = to_quizx(c);
+    let base = fresh_base(c);
+    // count measurement variables
+    let mut explicit: Vec<u32> = vec![];
+    let mut n_fresh = 0u32;
+    for g in &c.gates {
+        if let G::MeasureD(_, v) | G::MeasureR(_, v) = g {
+            if v.is_empty() {
+                n_fresh += 1;
+            } else {
+                explicit.extend(v.iter().copied());
+            }
+        }
+    }
+    explicit.sort();
+    explicit.dedup();
+    let mut vars = explicit.clone();
+    for k in 0..n_fresh {
+        vars.push(base + k);
+    }
+    if vars.len() > 6 {
+        cx.skipped();
+        return;
+    }
+    let assigns = all_assignments(&vars);
+    for (simp, post, mname) in super::c02::MODES {
+        for backend in ["vec", "hash"] {
+            let detail = |what: &str, extra: serde_json::Value| json!({"what": what, "mode": mname, "backend": backend, "circuit": circ_json(c), "extra": extra});
+            macro_rules! run_backend {
+                ($G:ty) => {{
+                    match guarded(|| qc.to_graph_with_options::<$G>(simp, post)) {
+                        Err(e) => {
+                            cx.violation(&format!("to_graph[{mname}]|panic|measure|{}", e.site()), family, index, detail("panic", json!(e.text())));
+                        }
+                        Ok(g) => {
+                            for a in &assigns {
+                                let assign_fn = |vs: &[u32], fresh_idx: usize| -> usize {
+                                    if vs.is_empty() {
+                                        a.get(&(base + fresh_idx as u32)).copied().unwrap_or(false) as usize
+                                    } else {
+                                        vs.iter().fold(false, |acc, v| acc ^ a.get(v).copied().unwrap_or(false)) as usize
+                                    }
+                                };
+                                let expect = if c.is_pi4() { Tens::Exact(tensor_exact_assign(c, &assign_fn).0) } else { Tens::Float(tensor_float_assign(c, &assign_fn).0) };
+                                let got = inst(&g, a).map_err(EvalError::IllFormed).and_then(|s| eval_snap(&s));
+                                match got {
+                                    Ok(t) => {
+                                        if t.len() != expect.len() || !t.same(&expect, FLOAT_TOL) {
+                                            cx.violation(
+                                                &format!("to_graph[{mname}]|measured-map-wrong"),
+                                                family,
+                                                index,
+                                                detail("projected map differs", json!({"assignment": assign_json(a), "got": t.brief(), "expected": expect.brief(), "graph": graph_json(&g)})),
+                                            );
+                                            break;
+                                        }
+                                    }
+                                    Err(EvalError::IllFormed(m)) => {
+                                        cx.violation(&format!("to_graph[{mname}]|ill-formed|measure"), family, index, detail("ill-formed", json!({"why": m, "graph": graph_json(&g)})));
+                                        break;
+                                    }
+                                    Err(EvalError::TooWide(_)) => {
+                                        cx.skipped();
+                                        break;
+                                    }
+                                }
+                            }
+                        }
+                    }
+                }};
+            }
+            if backend == "vec" {
+                run_backend!(quizx::vec_graph::Graph)
+            } else {
+                run_backend!(quizx::hash_graph::Graph)
+            }
+        }
+    }
+    let nm = c.gates.iter().filter(|g| matches!(g, G::MeasureD(..) | G::MeasureR(..))).count();
+    cx.count("measure_gates", nm as u64);
+    cx.case(family, if nm > 0 { Some(circ_hash(c)) } else { None });
+    cx.sample_n(6, || json!({"family": family, "index": index, "circuit": circ_json(c), "assignments": assigns.len()}));
+}
 
 pub fn run() {
-    ctx().harness_error("C10 monitor not implemented yet");
+    let c = ctx();
+    let t = c.tier;
+    c.set_rule("cases = diagrams whose spiders carry variable parities over {b0,b1,b2,b5} (rule applications and simplifiers checked under ALL assignments, both backends) and circuits with measure / measure-reset gates (translation checked for every outcome assignment, 3 modes x 2 backends); non-trivial = variables present and at least one rule accepted / rewrite fired, resp. at least one measurement; distinct = distinct descriptions");
+    c.assume("oracles O1/O2/O3 correct (self-tested, cross-checked); instantiation is done by the harness from the public interface (vars(), scalar_factors(), Parity/Expr iterators)");
+    let (ms, n_rand) = t.pick((5usize, 600usize), (8usize, 30_000usize));
+    par_cases("vars-graph-like", n_rand, move |r, i| {
+        let d = gen_random(r, &DiagParams { max_spiders: ms + 1, max_bnd: 3, pool: PhasePool::CliffordHeavy, graph_like: true, bare_wires: false, var_prob: 0.5 });
+        check_desc("vars-graph-like", i, r, &d);
+    });
+    par_cases("vars-arbitrary", n_rand, move |r, i| {
+        let d = gen_random(r, &DiagParams { max_spiders: ms, max_bnd: 3, pool: PhasePool::CliffordHeavy, graph_like: false, bare_wires: true, var_prob: 0.4 });
+        check_desc("vars-arbitrary", i, r, &d);
+    });
+    par_cases("vars-gadget-rich", n_rand, move |r, i| {
+        let d = gen_gadget_rich(r, 4, PhasePool::CliffordHeavy, 0.5);
+        check_desc("vars-gadget-rich", i, r, &d);
+    });
+    par_cases("vars-pauli-pairs", n_rand, move |r, i| {
+        // small scalar-ish diagrams: isolated spiders and pairs (remove_single / remove_pair paths)
+        let d = gen_random(r, &DiagParams { max_spiders: 3, max_bnd: 1, pool: PhasePool::Exact, graph_like: false, bare_wires: false, var_prob: 0.8 });
+        check_desc("vars-pauli-pairs", i, r, &d);
+    });
+    let (nq, depth, nc) = t.pick((3usize, 12usize, 600usize), (5usize, 30usize, 30_000usize));
+    par_cases("measure-circuits", nc, move |r, i| {
+        let mut p = CircParams::unitary(nq, depth, if r.chance(0.8) { PhPool::Exact } else { PhPool::Float });
+        p.measure = true;
+        p.ancilla = r.chance(0.3);
+        p.ccz = r.chance(0.2);
+        let circ = gen_circuit(r, &p);
+        check_meas_circuit("measure-circuits", i, &circ);
+    });
 }
